@@ -212,9 +212,34 @@ def axis_proofs(chk):
         tlc.cleanup(d)
 
 
+def replay_tools_idx(chk, st, rng):
+    """ToolsIdx.tla (spec growth): cshift / twosided / _swapsides / nextpow2 as index maps."""
+    from spectrum import tools
+    fn, N, k, mp = st['fn'], st['N'], st['k'], st['map']
+    if fn == 'nextpow2':
+        ok, res = call_guard(tools.nextpow2, N)
+        if not ok or int(res) != mp[0]:
+            chk.violation('C06:tools.nextpow2', 'nextpow2(%d) = %r, expected %d' % (N, res, mp[0]), {'n': N})
+    else:
+        x = np.arange(1, N + 1) * 10 + rng.randint(0, 9, N)
+        exp = np.array([x[i - 1] for i in mp])
+        f = {'cshift': lambda: tools.cshift(list(x), k), 'twosided': lambda: tools.twosided(x.copy()),
+             'swapsides': lambda: tools._swapsides(x.copy())}[fn]
+        ok, res = call_guard(f)
+        if not ok or cmp_vec(np.asarray(res), exp, tol=0) is not None:
+            chk.violation('C06:tools.%s' % fn, 'tools.%s(N=%d, k=%d) = %r, expected %s' % (fn, N, k, res, exp.tolist()), {'x': x, 'k': k})
+    chk.count('tools-index-functions', 'replayed')
+    chk.replayed += 1
+
+
 def run(chk):
     quick = chk.tier == 'quick'
     axis_proofs(chk)
+    rng = np.random.RandomState(600 + chk.seed)
+    core.run_jobs(chk, [{'module': 'ToolsIdx', 'part': 'tools-index-functions',
+                         'cfg': tlc._cfg_text(constants={'MaxN': 7 if quick else 12},
+                                              invariants=['CshiftPermutation', 'CshiftPeriod', 'TwosidedSymmetric']),
+                         'replay': lambda st: replay_tools_idx(chk, st, rng)}])
     maxn = 9 if quick else 12
     maxh = 3 if quick else 4
     cfg = tlc._cfg_text(constants={'MaxN': maxn, 'MaxHist': maxh},
